@@ -25,11 +25,22 @@
   `N0` only); the model takes the freshly constructed object as "no list, length 0", which is
   what the code needs to be well defined (see notes/reports/C04-full.md, finding C04-chol-minx-n).
 
+  Round 5: the second-stage error counter of the gso solver, `ICGS::error_icgs2_defect`, is state (`FState.err`).
+  `AdjGSO::solve()` refuses (`BadRegularization`) iff `icgs.error() != 0` after `icgs.reset; icgs1(); icgs2();`.
+  Where the counter is reset / incremented / read is NOT written here: `solveWith T` interprets a table `T`
+  (`IcgsTable`), and `solve = solveWith icgsCode` with `icgsCode` = the table regenerated from icgs.cpp / icgs.h /
+  adj_gso.h by tools/gen/c20_icgs.py (`Gen/IcgsError.lean`).  `icgsResetBehindEarlyReturn` is the variant of
+  seeded/C20-seed3 (the reset moved from `icgs1()` into `icgs2()` behind `if (defect() == 0) return;`).
+  The counter's VALUE is abstracted to "number of increment sites that fired", a failing regularisation making
+  every pivot-guarded site fire; the only read compares it with 0.
+
   Core Lean only.
 -/
 import Gama.Model.EnvState
+import Gama.Gen.IcgsError
 namespace Gama.C04.Full
 open Gama Gama.C04
+open Gama.Gen.IcgsError (Fn Act Site)
 
 /-- what the control flow depends on in the numeric input -/
 structure Input where
@@ -87,7 +98,65 @@ structure FState where
   dec : Bool
   /-- regularisation for which x and G (chol) / the phase-2 matrix (gso) were last computed -/
   gprov : VProv
+  /-- gso: `icgs.error_icgs2_defect` (a member of the long-lived `ICGS` object: survives `reset(A, b)`,
+      `min_x…` and a throw); chol has no such member (the field stays as constructed) -/
+  err : Nat := 0
 deriving Repr, DecidableEq
+
+/-! ### the ICGS error counter, as coded (table regenerated from the C++) -/
+
+structure IcgsTable where
+  sites : List Site
+  solveCalls : List Fn
+  icgs2EnsuresIcgs1 : Bool
+  resetClearsReady : Bool
+  icgs1SetsReady : Bool
+  errorReturnsCounter : Bool
+  solveThrowsIfNonzero : Bool
+  ctorValue : Nat
+deriving Repr, DecidableEq
+
+/-- the code: lean/Gama/Gen/IcgsError.lean -/
+def icgsCode : IcgsTable :=
+  { sites := Gama.Gen.IcgsError.sites, solveCalls := Gama.Gen.IcgsError.solveCalls,
+    icgs2EnsuresIcgs1 := Gama.Gen.IcgsError.icgs2EnsuresIcgs1, resetClearsReady := Gama.Gen.IcgsError.resetClearsReady,
+    icgs1SetsReady := Gama.Gen.IcgsError.icgs1SetsReady, errorReturnsCounter := Gama.Gen.IcgsError.errorReturnsCounter,
+    solveThrowsIfNonzero := Gama.Gen.IcgsError.solveThrowsIfNonzero, ctorValue := Gama.Gen.IcgsError.ctorValue }
+
+/-- VARIANT (seeded/C20-seed3): `error_icgs2_defect = 0;` moved from `icgs1()` into `icgs2()`, behind the early
+    `if (defect() == 0) return;` -/
+def icgsResetBehindEarlyReturn : IcgsTable :=
+  { icgsCode with sites := [⟨.icgs2, .reset, true, false⟩, ⟨.icgs2, .incr, true, true⟩, ⟨.icgs2, .incr, true, true⟩] }
+
+/-- the statements of member function `f` on the counter, in source order.  `sing`: the system has defect > 0
+    (statements behind `if (defect() == 0) return;` run only then); `fail`: a second-stage pivot is `≤ tolerance`
+    (the `else` branches of the pivot tests run only then). -/
+def runBody (T : IcgsTable) (f : Fn) (sing fail : Bool) (e : Nat) : Nat :=
+  T.sites.foldl (fun e s =>
+    if s.fn != f then e
+    else if s.behindEarlyReturn && !sing then e
+    else match s.act with
+      | .reset => 0
+      | .incr => if s.pivotGuarded && !fail then e else e + 1) e
+
+/-- one `icgs.<member>(…)` call of `AdjGSO::solve()`; the second component is `icgs1_is_ready` -/
+def callFn (T : IcgsTable) (sing fail : Bool) (st : Nat × Bool) : Fn → Nat × Bool
+  | .reset => (runBody T .reset sing fail st.1, if T.resetClearsReady then false else st.2)
+  | .icgs1 => (runBody T .icgs1 sing fail st.1, if T.icgs1SetsReady then true else st.2)
+  | .icgs2 =>
+    let st := if T.icgs2EnsuresIcgs1 && !st.2
+              then (runBody T .icgs1 sing fail st.1, if T.icgs1SetsReady then true else st.2) else st
+    (runBody T .icgs2 sing fail st.1, st.2)
+  | .minx => st
+
+/-- the counter after the ICGS calls of one `AdjGSO::solve()` that started with the value `e`
+    (`icgs1_is_ready` is cleared by `icgs.reset`, the first call: the translator insists on that) -/
+def errAfterSolve (T : IcgsTable) (sing fail : Bool) (e : Nat) : Nat :=
+  (T.solveCalls.foldl (callFn T sing fail) (e, false)).1
+
+/-- `if (icgs.error() != 0) { is_solved = true; throw … }` -/
+def gsoThrows (T : IcgsTable) (e : Nat) : Bool :=
+  T.solveThrowsIfNonzero && T.errorReturnsCounter && (e != 0)
 
 /-- the list the regularisation works with -/
 def eff (inp : Input) (s : FState) : List Nat :=
@@ -100,50 +169,69 @@ def materialise (k : Kind) (inp : Input) (s : FState) : FState :=
   | .chol => if s.useAll && ((s.list.map List.length).getD 0 != inp.n) then { s with list := some (allList inp.n) } else s
   | .gso => if s.useAll then { s with list := some (allList inp.n) } else s
 
+/-- the counter after a `solve()` that did not return early -/
+def counter (T : IcgsTable) : Kind → Bool → Bool → Nat → Nat
+  | .chol, _, _, _ => T.ctorValue          -- no such member: the ghost field keeps its constructed value
+  | .gso, sing, fail, e => errAfterSolve T sing fail e
+
+/-- does that `solve()` throw BadRegularization?  chol: a Gram–Schmidt pivot `< s_tol` (`fail`);
+    gso: the counter, whatever made it non-zero -/
+def throwsOn (T : IcgsTable) : Kind → Bool → Nat → Bool
+  | .chol, fail, _ => fail
+  | .gso, _, e => gsoThrows T e
+
 /-- `solve()`; the flag tells whether BadRegularization was thrown.
     Both classes set `is_solved = true` before they throw. -/
-def solve (k : Kind) (inp : Input) (s : FState) : FState × Bool :=
+def solveWith (T : IcgsTable) (k : Kind) (inp : Input) (s : FState) : FState × Bool :=
   if s.solved then (s, false) else
   let s := { s with dec := true }
-  if inp.nullity = 0 then ({ s with solved := true, gprov := .plain }, false)
+  if inp.nullity = 0 then
+    let e := counter T k false false s.err
+    ({ s with solved := true, gprov := .plain, err := e }, throwsOn T k false e)
   else
     let s := materialise k inp s
     let l := s.list.getD []
-    if inp.resolves l then ({ s with solved := true, gprov := .reg l }, false)
-    else ({ s with solved := true, gprov := .broken l }, true)
+    if inp.resolves l then
+      let e := counter T k true false s.err
+      ({ s with solved := true, gprov := .reg l, err := e }, throwsOn T k false e)
+    else
+      let e := counter T k true true s.err
+      ({ s with solved := true, gprov := .broken l, err := e }, throwsOn T k true e)
+
+def solve (k : Kind) (inp : Input) (s : FState) : FState × Bool := solveWith icgsCode k inp s
 
 /-- object right after construction, `min_x…` as configured, `reset(A, b)` -/
 def init (useAll : Bool) (list : Option (List Nat)) : FState :=
-  { solved := false, useAll := useAll, list := list, dec := false, gprov := .unset }
+  { solved := false, useAll := useAll, list := list, dec := false, gprov := .unset, err := icgsCode.ctorValue }
 
-def step (k : Kind) (inp : Input) (s : FState) : Op → FState × Out
+def stepWith (T : IcgsTable) (k : Kind) (inp : Input) (s : FState) : Op → FState × Out
   | .unknowns =>            -- `if (!is_solved) solve(); return x;`
-    let (s, thrown) := solve k inp s
+    let (s, thrown) := solveWith T k inp s
     if thrown then (s, .badReg) else (s, if s.dec then .x s.gprov else .stale "x")
   | .residuals =>
-    let (s, thrown) := solve k inp s
+    let (s, thrown) := solveWith T k inp s
     if thrown then (s, .badReg) else (s, if s.dec then .resid .plain else .stale "r")
   | .sumsq =>               -- `residuals()` then the dot product
-    let (s, thrown) := solve k inp s
+    let (s, thrown) := solveWith T k inp s
     if thrown then (s, .badReg) else (s, if s.dec then .sumsq .plain else .stale "r")
   | .defect =>              -- `solve(); return nullity;` / `solve(); return icgs.defect();`
-    let (s, thrown) := solve k inp s
+    let (s, thrown) := solveWith T k inp s
     if thrown then (s, .badReg) else (s, if s.dec then .defect else .stale "defect")
   | .lindep i =>
-    let (s, thrown) := solve k inp s
+    let (s, thrown) := solveWith T k inp s
     if thrown then (s, .badReg) else (s, if s.dec then .lindep i else .stale "lindep")
   | .qxx i j =>
-    let (s, thrown) := solve k inp s
+    let (s, thrown) := solveWith T k inp s
     if thrown then (s, .badReg) else
     if !s.dec then (s, .stale "Q") else
     match k with
     | .chol => if inp.nullity = 0 then (s, .qxx i j none .plain) else (s, .qxx i j s.list s.gprov)
     | .gso => (s, .qxx i j none s.gprov)
   | .qbb i j =>             -- chol: A Q0 Aᵀ; gso: rowdot over the first block
-    let (s, thrown) := solve k inp s
+    let (s, thrown) := solveWith T k inp s
     if thrown then (s, .badReg) else (s, if s.dec then .qbb i j else .stale "Q")
   | .qbx i j =>
-    let (s, thrown) := solve k inp s
+    let (s, thrown) := solveWith T k inp s
     if thrown then (s, .badReg) else
     if !s.dec then (s, .stale "Q") else
     match k with
@@ -155,6 +243,8 @@ def step (k : Kind) (inp : Input) (s : FState) : Op → FState × Out
     | .gso => ({ s with useAll := true, solved := false }, .ok)
   | .minx l => ({ s with list := some l, useAll := false, solved := false }, .ok)
   | .reset => ({ s with solved := false, dec := false, gprov := .unset }, .ok)
+
+def step (k : Kind) (inp : Input) (s : FState) : Op → FState × Out := stepWith icgsCode k inp s
 
 def run (k : Kind) (inp : Input) (s : FState) : List Op → FState
   | [] => s
